@@ -180,6 +180,14 @@ def run_case(case):
             text2 = None
         if text2 != text:
             res.failures.append(Failure("non-deterministic", f"{label}: generating twice gives different text"))
+        # ... and a second ORMatic over the SAME ClassDiagram object (e.g. another inheritance strategy, a re-run)
+        try:
+            text3 = ormgen.generate_orm_source(classes, diagram=ormgen.LAST_DIAGRAM[0])
+        except Exception as e:
+            text3 = f"<{type(e).__name__}: {e}>"
+        if text3 != text:
+            res.failures.append(Failure("non-deterministic", f"{label}: a second ORMatic over the same ClassDiagram generates "
+                                                             f"different text ({len(text3)} vs {len(text)} characters)"))
         if mi % 97 == 0:
             # the unmodified pipeline with black, compared on the AST level
             import ast
